@@ -839,6 +839,7 @@ func main() {
 	misc(c, subjects)
 	afterError(c, subjects)
 	refusals(c, subjects)
+	sharedAdapter(c, subjects)
 
 	r.Set("message_values_per_runtime", perRT)
 	r.Set("message_types_per_runtime_and_group", typesPerRT)
